@@ -102,8 +102,25 @@ class LeanResult:
         self.driver_ok = False
 
 
-def lean_build(need_extract=True):
-    """regenerate Generated/, build library + driver, audit; returns LeanResult"""
+def prop_modules(prop):
+    """the Lean modules that carry the theorems of one property: Props/<prop>*.lean, plus the kernel-evaluated
+    instances of Props/Examples.lean for the properties it instantiates, plus the generated obligations"""
+    props = os.path.join(LEAN, "Yomm2", "Props")
+    mods = []
+    for f in sorted(os.listdir(props)):
+        if f.endswith(".lean") and re.match(re.escape(prop) + r"(?![0-9])", f):
+            mods.append("Yomm2.Props." + f[:-5])
+    if prop in ("C01", "C09", "C13"):
+        mods.append("Yomm2.Props.Examples")
+    mods.append("Yomm2.Proofs.Generated")
+    return mods
+
+
+def lean_build(need_extract=True, prop=None):
+    """regenerate Generated/, build the driver and the proofs, audit; returns LeanResult.
+
+    With `prop`, only the modules that carry that property's theorems (and what they import) decide the
+    result: a proof that no longer checks elsewhere in the library is another property's business."""
     t0 = time.time()
     res = LeanResult()
     if need_extract:
@@ -111,13 +128,16 @@ def lean_build(need_extract=True):
         if ex.returncode != 0:
             res.errors.append("extract.py failed: " + ex.stderr[-2000:])
             return res
+        res.notes = [l for l in ex.stderr.splitlines() if l.startswith("cpp2lean:")]
     d = sh(["lake", "build", "driver"], cwd=LEAN)
     res.driver_ok = d.returncode == 0
-    b = sh(["lake", "build"], cwd=LEAN)
+    targets = prop_modules(prop) if prop else []
+    b = sh(["lake", "build"] + targets, cwd=LEAN)
     if b.returncode != 0:
         msg = (b.stdout + b.stderr)
         errs = [l for l in msg.splitlines() if "error" in l]
-        res.errors.append("lake build failed: " + "\n".join(errs[:20]))
+        res.errors.append("lake build %s failed: " % " ".join(targets) + "\n".join(errs[:20]))
+        res.errors += getattr(res, "notes", [])
         res.build_log = msg
         res.wall = time.time() - t0
         return res
@@ -128,7 +148,7 @@ def lean_build(need_extract=True):
             if FORBIDDEN.search(line):
                 res.errors.append("forbidden construct in %s: %s" % (os.path.relpath(p, LEAN), line.strip()))
     # axioms of every property theorem
-    a = sh(["lake", "env", "lean", "Audit.lean"], cwd=LEAN)
+    a = sh(["lake", "env", "lean", audit_file(prop)], cwd=LEAN)
     cur = None
     for line in (a.stdout + a.stderr).splitlines():
         m = re.match(r"'([^']+)' depends on axioms: \[(.*)\]", line)
@@ -494,31 +514,57 @@ class Check:
 # --------------------------------------------------------------------------------------------------
 # audit file, CLI
 
-def write_audit():
-    """Audit.lean prints the axioms of every theorem under Yomm2/Props and of the generated obligations"""
+def audit_file(prop=None):
+    return "Audit.lean" if not prop else os.path.join(".lake", "Audit_%s.lean" % prop)
+
+
+def theorem_names(path):
+    src = strip_comments(open(path).read())
+    ns, names = "", []
+    for m in re.finditer(r"^(namespace|theorem)\s+(\S+)", src, re.M):
+        if m.group(1) == "namespace":
+            ns = m.group(2)
+        else:
+            names.append(ns + "." + m.group(2))
+    return names
+
+
+def write_audit(prop=None):
+    """Audit.lean prints the axioms of every theorem under Yomm2/Props and of the generated obligations; the
+    audit of one property imports and lists only the modules of that property"""
     names = []
-    for sub in ("Props", os.path.join("Proofs", "Generated.lean")):
-        root = os.path.join(LEAN, "Yomm2", sub)
-        files = tree_files(root, (".lean",)) if os.path.isdir(root) else [root]
-        for p in sorted(files):
-            src = strip_comments(open(p).read())
-            ns = ""
-            for m in re.finditer(r"^(namespace|theorem)\s+(\S+)", src, re.M):
-                if m.group(1) == "namespace":
-                    ns = m.group(2)
-                else:
-                    names.append(ns + "." + m.group(2))
-    body = "import Yomm2\n" + "".join("#print axioms %s\n" % n for n in names)
-    path = os.path.join(LEAN, "Audit.lean")
+    if prop:
+        mods = prop_modules(prop)
+        for mod in mods:
+            names += theorem_names(os.path.join(LEAN, *mod.split(".")) + ".lean")
+        body = "".join("import %s\n" % m for m in mods) + "".join("#print axioms %s\n" % n for n in names)
+    else:
+        for sub in ("Props", os.path.join("Proofs", "Generated.lean")):
+            root = os.path.join(LEAN, "Yomm2", sub)
+            files = tree_files(root, (".lean",)) if os.path.isdir(root) else [root]
+            for p in sorted(files):
+                names += theorem_names(p)
+        body = "import Yomm2\n" + "".join("#print axioms %s\n" % n for n in names)
+    path = os.path.join(LEAN, audit_file(prop))
+    os.makedirs(os.path.dirname(path), exist_ok=True)
     if not os.path.exists(path) or open(path).read() != body:
         open(path, "w").write(body)
     return names
 
 
-def recheck_oleans():
+def recheck_oleans(prop=None):
     """thorough tier: the compiled library is replayed declaration by declaration by leanchecker, the
     toolchain's independent re-checker (--fresh: the whole environment, core included); cached by the
-    hash of the compiled files. Returns (ok, seconds, message)"""
+    hash of the compiled files. When the whole library no longer builds (a proof of another property broke)
+    only the modules of this property are replayed. Returns (ok, seconds, message)"""
+    full = sh(["lake", "build"], cwd=LEAN)
+    if full.returncode != 0 and prop:
+        t0 = time.time()
+        for mod in prop_modules(prop):
+            r = sh(["lake", "env", "leanchecker", "--fresh", mod], cwd=LEAN)
+            if r.returncode != 0:
+                return False, time.time() - t0, (r.stdout + r.stderr)[-2000:]
+        return True, time.time() - t0, "leanchecker --fresh on the modules of %s (the whole library does not build)" % prop
     lib = os.path.join(LEAN, ".lake", "build", "lib")
     h = hashlib.sha256()
     for p in sorted(tree_files(lib, (".olean",))):
@@ -540,10 +586,10 @@ def recheck_oleans():
 def prepare(ck, need_harness=True):
     """steps (1) and (2) of every check. Returns "ok", "search" (proof obligations broke but the
     model still runs: look for a failing input) or "stop"."""
-    write_audit()
-    ck.lean = lean_build()
+    write_audit(ck.prop)
+    ck.lean = lean_build(prop=ck.prop)
     if ck.lean.ok and ck.tier == "thorough":
-        ok, dt, msg = recheck_oleans()
+        ok, dt, msg = recheck_oleans(ck.prop)
         ck.leanchecker = {"ok": ok, "seconds": round(dt, 1), "detail": msg}
         if not ok:
             ck.lean.ok = False
